@@ -175,9 +175,9 @@ theorem guarded_no_abort : ∀ p ∈ guardedSems, ∀ args, p.2 args ≠ .abort 
   · exact prim_error_no_abort
 
 /-- A primitive outside the offending list never aborts the host, whatever the arguments. -/
-theorem outcome_no_abort (name : String) (h : name ∉ offending) (args : List Val) :
-    outcome name args ≠ .abort := by
-  unfold outcome
+theorem rawOutcome_no_abort (name : String) (h : name ∉ offending) (args : List Val) :
+    rawOutcome name args ≠ .abort := by
+  unfold rawOutcome
   split
   · rename_i f hf
     have hm := lookup_mem name _ f hf
@@ -188,6 +188,30 @@ theorem outcome_no_abort (name : String) (h : name ∉ offending) (args : List V
     · split
       · split <;> simp
       · simp
+
+theorem catchUnwind_ne_abort (o : Outcome) : catchUnwind o ≠ .abort := by
+  cases o <;> simp [catchUnwind]
+
+theorem catchUnwind_err_iff (o : Outcome) : catchUnwind o = .err ↔ (o = .err ∨ o = .abort) := by
+  cases o <;> simp [catchUnwind]
+
+theorem ofR_ne_err {α} (f : α → Res) (r : R α) : ofR f r ≠ .err := by
+  cases r <;> simp [ofR]
+
+theorem ofRRT_err_iff {α} (f : α → Res) (r : R (RT α)) : ofRRT f r = .err ↔ r = .ret .panic := by
+  rcases r with (a | _) | _ <;> simp [ofRRT]
+
+/-- The hand-written `extern "C"` entries are not in the offending list. -/
+theorem rawExtern_not_offending : ∀ n ∈ rawExternNames, n ∉ offending := by decide
+
+/-- No primitive of the tables can abort the host: calls routed through `unpack_and_call` have their
+    panics caught; the two hand-written `extern "C"` entries never panic. -/
+theorem outcome_no_abort (name : String) (args : List Val) : outcome name args ≠ .abort := by
+  unfold outcome
+  split
+  · rename_i h
+    exact rawOutcome_no_abort name (rawExtern_not_offending name h) args
+  · exact catchUnwind_ne_abort _
 
 /-! ### the offending primitives: exact abort conditions -/
 
